@@ -6,6 +6,7 @@ from .. import compile as CP
 from .. import expr as E
 from .. import model as M
 from ..core import Report
+from .common import require_fresh_lookups
 from ..interp import Raised, TV
 
 META = {
@@ -121,3 +122,5 @@ def run(rep: Report) -> None:
                                   f"inflow used by the density update of {fed.ident} - entering flows - reported origin flow "
                                   f"= {nz.show(res)[:300]}", key=f"balflow|{o.cls.split(':')[1]}|c={compact}")
     rep.floor("option combinations", n, 12)
+    require_fresh_lookups(rep)
+
